@@ -85,6 +85,10 @@ def make_spec(rng, idx=0):
                 levels.append({"key": k, "free": False, "digits": (rng.choice(["cut", "rl"]), 2)})
         spec["basetypes"].append({"name": name, "code": code, "folder": name.upper() + "S", "levels": levels, "groups": [], "short": True})
     spec["aliases"] = {"cache": ["abc", "vdb", "fur", "json"], "movie": ["mp4", "mov", "avi"]}
+    spec["exts"] = {k: list(v) for k, v in EXTS.items()}
+    if feature(0.4):      # the leaf vocabulary (extensions AND alias names) in upper / mixed case
+        spec["exts"] = {k: [x.upper() for x in v] for k, v in EXTS.items()}
+        spec["aliases"] = {"CACHE": [x.upper() for x in spec["aliases"]["cache"]], "Movie": [x.upper() for x in spec["aliases"]["movie"]]}
     spec["third_path_config"] = feature(0.7)
     spec["default_not_first"] = feature()
     # an explicitly declared MID-CHAIN level (with undeclared levels above it): extrapolation skips it and goes on
@@ -173,7 +177,8 @@ def write_package(spec, directory):
             elif l.get("digits"):
                 kp["{%s}" % l["key"]] = "{%s:%s}" % (l["key"], _digits(*l["digits"]))
         for g in bt["groups"]:
-            kp["{%s:%s}" % (E, g)] = "{%s:%s}" % (E, _closed(EXTS[g] + [a for a in spec["aliases"] if set(spec["aliases"][a]) <= set(EXTS[g])]))
+            exts = (spec.get("exts") or EXTS)[g]
+            kp["{%s:%s}" % (E, g)] = "{%s:%s}" % (E, _closed(exts + [a for a in spec["aliases"] if set(spec["aliases"][a]) <= set(exts)]))
         key_patterns[b] = kp
         # path templates
         root = "{@root}/{%s}/%s/{%s:%s}" % (P, spec["folders"]["prod"], T, bt["folder"])
